@@ -48,6 +48,12 @@ impl Script {
     fn give(&mut self, k: usize, buf: &mut [u8]) -> usize {
         let left = self.data.len() - self.pos;
         let k = k.max(1).min(buf.len()).min(left);
+        // watchdog: a reader that keeps asking a source that has reported its end 1000 times will never stop; the panic ends the
+        // session with the outcome "panic" (a loop that does not even read cannot be caught this way)
+        if k == 0 && !buf.is_empty() {
+            let eofs = self.i.saturating_sub(self.sched.len());
+            if self.pos == self.data.len() && eofs > 1000 + self.data.len() { panic!("source asked again and again after its end"); }
+        }
         buf[..k].copy_from_slice(&self.data[self.pos..self.pos + k]);
         self.pos += k;
         self.entry(if k == 0 { "eof" } else { "bytes" }, buf.len(), k);
